@@ -30,13 +30,18 @@ pub struct S3Scenario {
     pub big_tag: Option<u8>,
     #[serde(default)]
     pub blob_len: u32,
+    /// opaque bytes appended to the payload of odd-tagged and of big messages (line terminators,
+    /// NUL, 0xff, ...: the runtime must hand payload bytes through untouched)
+    #[serde(default)]
+    pub tail: Vec<u8>,
     pub sched: SchedSpec,
 }
 
 #[derive(Clone, Debug, Serialize, PartialEq)]
 pub enum HKind {
     Start,
-    Msg { src: u64, tag: u8, who: Option<u64>, blob_len: usize },
+    /// `dig`: digest of the received message re-encoded by the codec
+    Msg { src: u64, tag: u8, who: Option<u64>, blob_len: usize, dig: Dig },
     Timeout(u8),
     Random(u8),
 }
@@ -64,6 +69,7 @@ pub struct S3Actor {
     pub sched: Arc<Sched>,
     pub big_tag: Option<u8>,
     pub blob_len: u32,
+    pub tail: Arc<Vec<u8>>,
 }
 
 fn id_u64(i: Id) -> u64 {
@@ -87,7 +93,7 @@ impl S3Actor {
                 RCmd::Send(d, m) => {
                     let d = self.fix(d);
                     let m = M { tag: m.tag, who: m.who.map(|w| self.fix(w)) };
-                    let m = Big { blob: blob_for(m.tag, self.big_tag, self.blob_len), m };
+                    let m = Big { blob: blob_for(m.tag, self.big_tag, self.blob_len, &self.tail), m };
                     if let Ok(bytes) = ser(&m) {
                         ev.sends.push((id_u64(d), dig(&bytes)));
                     } else {
@@ -98,7 +104,7 @@ impl S3Actor {
                 RCmd::Bcast(ds, m) => {
                     let ds: Vec<Id> = ds.into_iter().map(|d| self.fix(d)).collect();
                     let m = M { tag: m.tag, who: m.who.map(|w| self.fix(w)) };
-                    let m = Big { blob: blob_for(m.tag, self.big_tag, self.blob_len), m };
+                    let m = Big { blob: blob_for(m.tag, self.big_tag, self.blob_len, &self.tail), m };
                     for d in &ds {
                         if let Ok(bytes) = ser(&m) {
                             ev.sends.push((id_u64(*d), dig(&bytes)));
@@ -151,8 +157,9 @@ impl Actor for S3Actor {
     }
     fn on_msg(&self, id: Id, state: &mut Cow<S>, src: Id, msg: Big, o: &mut Out<Self>) {
         let blob_len = msg.blob.len();
+        let d = ser(&msg).map(|b| dig(&b)).unwrap_or((0, usize::MAX));
         let msg = msg.m;
-        let mut ev = self.ev(HKind::Msg { src: id_u64(src), tag: msg.tag, who: msg.who.map(id_u64), blob_len }, Some(state));
+        let mut ev = self.ev(HKind::Msg { src: id_u64(src), tag: msg.tag, who: msg.who.map(id_u64), blob_len, dig: d }, Some(state));
         let e = self.table.eval_msg(id, state, src, &msg);
         if let Some(n) = e.new_state {
             *state = Cow::Owned(n);
@@ -224,12 +231,12 @@ fn dig_more(mut h: u64, bytes: &[u8]) -> u64 {
 fn dig(bytes: &[u8]) -> Dig {
     (dig_more(0xcbf2_9ce4_8422_2325, bytes), bytes.len())
 }
-fn blob_for(tag: u8, big_tag: Option<u8>, blob_len: u32) -> Vec<u8> {
-    if Some(tag) == big_tag {
-        vec![b'z'; blob_len as usize]
-    } else {
-        Vec::new()
+fn blob_for(tag: u8, big_tag: Option<u8>, blob_len: u32, tail: &[u8]) -> Vec<u8> {
+    let mut b = if Some(tag) == big_tag { vec![b'z'; blob_len as usize] } else { Vec::new() };
+    if Some(tag) == big_tag || tag % 2 == 1 {
+        b.extend_from_slice(tail);
     }
+    b
 }
 
 pub fn gen_s3(seed: u64) -> S3Scenario {
@@ -287,7 +294,42 @@ pub fn gen_s3(seed: u64) -> S3Scenario {
         send_err_pct: *rng.pick(&[0u8, 0, 10]),
         recv_err_pct: *rng.pick(&[0u8, 0, 10]),
     };
-    S3Scenario { tables, addrs, timer_ranges, injections, horizon_ms, big_tag, blob_len, sched }
+    // a long handler output around a set-then-cancel of one timer (sends go to an outside address)
+    let mut tables = tables;
+    if g.use_timers && rng.chance(1, 3) {
+        let t = rng.below(g.timers as u64) as u8;
+        let outside = |rng: &mut Rng, k: u64| -> Vec<Cmd> { (0..k).map(|_| Cmd::Send { dst: Dst::Abs(n as u8 + 1), tag: rng.below(g.tags as u64) as u8, who: Who::Nobody }).collect() };
+        let ks = [0u64, 1, 8, 25, 31, 45];
+        let k1 = ks[rng.usize_below(ks.len())];
+        let mut cmds = outside(&mut rng, k1);
+        cmds.push(Cmd::SetTimer(t));
+        let k2 = ks[rng.usize_below(ks.len())];
+        cmds.extend(outside(&mut rng, k2));
+        cmds.push(Cmd::CancelTimer(t));
+        let k3 = ks[rng.usize_below(ks.len())];
+        cmds.extend(outside(&mut rng, k3));
+        let ti = rng.usize_below(tables.len());
+        let tb = &mut tables[ti];
+        match rng.below(3) {
+            0 => tb.start = cmds,
+            1 if !tb.msg.is_empty() => {
+                let i = rng.usize_below(tb.msg.len());
+                tb.msg[i].1.cmds = cmds;
+            }
+            _ if !tb.timer.is_empty() => {
+                let i = rng.usize_below(tb.timer.len());
+                tb.timer[i].1.cmds = cmds;
+            }
+            _ => tb.start = cmds,
+        }
+    }
+    let tail: Vec<u8> = match rng.below(6) {
+        0 => vec![b'\n'],
+        1 => vec![b'\r', b'\n'],
+        2 => (0..rng.range(1, 3)).map(|_| *rng.pick(&[b'\n', b'\r', 0u8, b' ', 0xff, b'}', b'a', b'\t'])).collect(),
+        _ => vec![],
+    };
+    S3Scenario { tables, addrs, timer_ranges, injections, horizon_ms, big_tag, blob_len, tail, sched }
 }
 
 pub struct S3Obs {
@@ -308,7 +350,7 @@ pub fn run_s3(sc: &S3Scenario) -> S3Obs {
         .tables
         .iter()
         .enumerate()
-        .map(|(i, t)| (ids[i], S3Actor { idx: i, table: Arc::new(t.clone()), ids: ids.clone(), ranges: ranges.clone(), log: log.clone(), sched: sched.clone(), big_tag: sc.big_tag, blob_len: sc.blob_len }))
+        .map(|(i, t)| (ids[i], S3Actor { idx: i, table: Arc::new(t.clone()), ids: ids.clone(), ranges: ranges.clone(), log: log.clone(), sched: sched.clone(), big_tag: sc.big_tag, blob_len: sc.blob_len, tail: Arc::new(sc.tail.clone()) }))
         .collect();
     let res = std::panic::catch_unwind(std::panic::AssertUnwindSafe(|| {
         // the runtime blocks forever: run it on its own simulation thread
@@ -326,7 +368,7 @@ pub fn run_s3(sc: &S3Scenario) -> S3Obs {
             }
             let to: SocketAddrV4 = ids[target as usize % ids.len()].into();
             let bytes = match kind {
-                0 => ser(&Big { m: M { tag, who: None }, blob: blob_for(tag, sc.big_tag, sc.blob_len) }).unwrap_or_default(),
+                0 => ser(&Big { m: M { tag, who: None }, blob: blob_for(tag, sc.big_tag, sc.blob_len, &sc.tail) }).unwrap_or_default(),
                 1 => vec![0xff, b'{', tag, 0x00, b'x'],
                 _ => vec![],
             };
@@ -404,22 +446,12 @@ pub fn judge(sc: &S3Scenario, obs: &S3Obs) -> (Vec<Violation>, Counters) {
             }
             prev_after = Some(e.after.clone());
             match &e.kind {
-                HKind::Msg { src, tag, who, blob_len } => {
+                HKind::Msg { src, tag, who, blob_len: _, dig: want } => {
                     c.inc("handler_on_msg");
-                    // an unmatched datagram, delivered before the handler ran, with this content and source
-                    // what was handed over, re-encoded: it must be byte for byte a datagram that was
-                    // delivered to this socket (the codec is the identity on well-formed datagrams)
-                    let head = {
-                        let mut h = serde_json::to_vec(&M { tag: *tag, who: who.map(|w| Id::from(SocketAddrV4::new(Ipv4Addr::from((w >> 16) as u32), (w & 0xffff) as u16))) }).unwrap();
-                        h.push(b'\n');
-                        h
-                    };
-                    let head = if *tag == EMPTY_TAG && who.is_none() && *blob_len == 0 { Vec::new() } else { head };
-                    let mut hh = dig_more(0xcbf2_9ce4_8422_2325, &head);
-                    for _ in 0..*blob_len {
-                        hh = (hh ^ b'z' as u64).wrapping_mul(0x0000_0100_0000_01b3);
-                    }
-                    let want: Dig = (hh, head.len() + *blob_len);
+                    // what was handed over, re-encoded by the handler itself: it must be byte for byte a
+                    // datagram that was delivered to this socket before the handler ran (the codec is
+                    // the identity on well-formed datagrams)
+                    let want: Dig = *want;
                     let key = (*src, want);
                     let hit = match by_key.get_mut(&key) {
                         Some(q) if q.front().map(|i| recvd[*i].2 <= e.t_enter).unwrap_or(false) => q.pop_front(),
